@@ -17,7 +17,7 @@ type C14Case struct {
 }
 
 func GenC14() *rapid.Generator[C14Case] {
-	dag := genNet(NetCfg{MinHidden: 1, AllowOrphans: true})
+	dag := genNet(NetCfg{MinHidden: 1, AllowOrphans: true, LongChains: true})
 	cyc := genNet(NetCfg{MinHidden: 1, Cyclic: true, ParallelLinks: true, MaxHidden: 6})
 	return rapid.Custom(func(t *rapid.T) C14Case {
 		var c C14Case
@@ -46,6 +46,9 @@ func CheckC14(c C14Case, rec *Rec) error {
 	}
 	model, merr := c.Net.longestPathToOutputs()
 	acyclic := merr == nil
+	if len(c.Net.Nodes) > 32 {
+		rec.Class("more than 32 nodes")
+	}
 	if acyclic {
 		rec.Class("acyclic")
 		if D != model {
